@@ -626,10 +626,53 @@ def classify_store(f, e, nvars):
     return 'set'
 
 
-def check_lifetime(ctx, prog):
+def check_tokens(ctx, prog):
+    """C01.tokens: the mutating members of Array are interpreted at the level of element objects (tokensim) on every array
+    of 0..4 elements; decided members are returned as a set of (file, line) so that the path rules below, which look at the
+    same members through construct / destroy / move *events*, are only the fallback for a member the interpreter cannot
+    follow."""
+    import tokensim
+    decided = set()
     n = 0
     for f in prog.functions:
+        if f.get('clsp') != 'asl::Array' or f.get('implicit') or not f.get('body') or f['n'] not in tokensim.MEMBERS:
+            continue
+        if not f['q'].startswith('asl::Array<int>::'):
+            continue
+        if f['n'] == 'append' and len(f['params']) == 1 and T(f, T(f, f['params'][0]['t']).get('to') or f['params'][0]['t']).get('recp') != 'asl::Array':
+            continue
+        try:
+            r = tokensim.decide(prog, f, 4)
+        except RecursionError:
+            r = ('undecided', '', 'recursion limit')
+        if r is None:
+            continue
+        role = '%s%s:element objects constructed and destroyed once, sequence as the reference' % (f['n'], f.get('sig') or '')
+        if r[0] == 'ok':
+            n += 1
+            ctx.analysed(f)
+            ctx.evaluations += r[1]
+            ctx.ok('C01.tokens', f['pq'], role, fwhere(f), 'interpreted on %d (array, argument) cases of 0..4 elements: every object constructed once and destroyed once, no access outside the capacity, resulting sequence = reference' % r[1])
+            decided.add((f.get('file'), f.get('line')))
+        elif r[0] == 'bad':
+            n += 1
+            ctx.analysed(f)
+            ctx.violation('C01.tokens', f['pq'], role, fwhere(f), '%s: in the case %s the member %s' % (f['q'] + (f.get('sig') or ''), r[1], r[2]))
+            decided.add((f.get('file'), f.get('line')))
+        else:
+            ctx.info.setdefault('token_interpretation_fallback', []).append('%s%s: %s' % (f['q'], f.get('sig') or '', r[2]))
+    ctx.info['members_decided_by_token_interpretation'] = n
+    return decided
+
+
+def check_lifetime(ctx, prog):
+    n = 0
+    decided = check_tokens(ctx, prog)
+    for f in prog.functions:
         if f.get('clsp') != 'asl::Array' or f.get('implicit') or not f.get('body'):
+            continue
+        if (f.get('file'), f.get('line')) in decided:
+            n += 1
             continue
         stores = [e for e in fn_exprs(f) if is_n_store(e)]
         frees = [e for e in fn_exprs(f) if e.get('k') == 'call' and e.get('fn') == 'free' and not e.get('clsp')]
